@@ -248,8 +248,37 @@ def linear_cross_check(scenario: str, nsteps: int, primer: bool = True):
             w = _hms(p.get("wait_time_seconds", ""))
             if w is None or not (0 <= w <= timeout + step):
                 bad.append(("wait_time_range", f"{scenario}: pickup of {p['request_id']}: wait {p.get('wait_time_seconds')}"))
+        # the same scenario once more in this process under the same output name: the library either refuses (the output directory
+        # exists) or gives the second run a log of its own -- if it accepts the run, what that run finds in its event.log must account
+        # for ITS state, not for two runs
+        second = "refused"
+        try:
+            rp2 = load(path)
+        except FileExistsError:
+            rp2 = None
+        if rp2 is not None:
+            second = "accepted"
+            odo2 = {vid: v.distance_traveled_km for vid, v in rp2.s.vehicles.items()}
+            for _ in range(nsteps):
+                rp2 = hive_cosim.crank(rp2, 1).runner_payload
+            with in_dir(d), quiet_stdout():
+                hive_cosim.close(rp2)
+            logs2 = [p2 for p2 in glob.glob(os.path.join(d, "out", "*", "event.log"))]
+            newest = max(logs2, key=os.path.getmtime)
+            moved = {}
+            for ln in open(newest):
+                try:
+                    j = _json.loads(ln)
+                except Exception:
+                    continue
+                if j.get("report_type") == "vehicle_move_event":
+                    moved[j["vehicle_id"]] = moved.get(j["vehicle_id"], 0.0) + float(j["distance_km"])
+            for vid, v in rp2.s.vehicles.items():
+                if abs(moved.get(vid, 0.0) - (v.distance_traveled_km - odo2[vid])) > 1e-6:
+                    bad.append(("move_vs_odometer", f"{scenario}, run a second time under the same output name in one process: vehicle {vid}: the move lines of its event.log sum to {moved.get(vid, 0.0)}, its odometer reads {v.distance_traveled_km - odo2[vid]}"))
+                    break
         return {"lines": len(lines), "moves": len(by.get("vehicle_move_event", [])), "charges": len(by.get("vehicle_charge_event", [])),
-                "pickups": len(by.get("pickup_request_event", [])), "cancels": ncancel, "adds": nadd}, bad
+                "pickups": len(by.get("pickup_request_event", [])), "cancels": ncancel, "adds": nadd, "second_run_same_output_name": second}, bad
     finally:
         shutil.rmtree(d, ignore_errors=True)
 
